@@ -2829,5 +2829,439 @@ impl Encoder {
 //@end
 }
 
+
+// ---------------------------------------------------------------------------------------------------------------------------------
+// MQTT 5 PUBLISH on the wire (C02, C17)
+//@macro gneiss-mqtt/src/encode.rs get_optional_packet_field
+//@fn gneiss-mqtt/src/mqtt/publish.rs get_publish_packet_response_topic props=C02
+    requires packet matches MqttPacket::Publish(p) && p.response_topic is Some,
+    ensures packet matches MqttPacket::Publish(p) && p.response_topic matches Some(t) && r@ == t@,
+//@end
+//@fn gneiss-mqtt/src/mqtt/publish.rs get_publish_packet_content_type props=C02
+    requires packet matches MqttPacket::Publish(p) && p.content_type is Some,
+    ensures packet matches MqttPacket::Publish(p) && p.content_type matches Some(t) && r@ == t@,
+//@end
+//@fn gneiss-mqtt/src/mqtt/publish.rs get_publish_packet_correlation_data props=C02
+    requires packet matches MqttPacket::Publish(p) && p.correlation_data is Some,
+    ensures packet matches MqttPacket::Publish(p) && p.correlation_data matches Some(t) && r@ == t@,
+//@end
+//@fn gneiss-mqtt/src/mqtt/publish.rs get_publish_packet_user_property props=C02
+    requires packet matches MqttPacket::Publish(p) && p.user_properties matches Some(ups) && index < ups@.len(),
+    ensures packet matches MqttPacket::Publish(p) && p.user_properties matches Some(ups) && *r == ups@[index as int],
+//@end
+
+//@macro gneiss-mqtt/src/encode.rs encode_optional_property
+//@macro gneiss-mqtt/src/encode.rs encode_optional_enum_property
+//@macro gneiss-mqtt/src/encode.rs encode_optional_string_property fnptr_opaque
+//@macro gneiss-mqtt/src/encode.rs encode_optional_bytes_property fnptr_opaque
+#[verifier::external_body]
+pub fn verif_of_FnP_MqttPacket_usize__UserProperty<F: Fn(&MqttPacket, usize) -> &UserProperty>(f: F) -> (r: FnP_MqttPacket_usize__UserProperty)
+    ensures forall|p: MqttPacket, i: usize| #[trigger] f.requires((&p, i)) ==> exists|out: &UserProperty| #[trigger] f.ensures((&p, i), out)
+        && g_upname(r, p, i) == str_bytes(out.name@) && g_upvalue(r, p, i) == str_bytes(out.value@),
+{ unimplemented!() }
+
+// ---- lengths: the spec functions of the validate unit (same text), where compute_publish_packet_length_properties5 is proved against them
+pub open spec fn vli_len(x: nat) -> nat { if x < 128 { 1 } else if x < 16384 { 2 } else if x < 2097152 { 3 } else { 4 } }
+pub open spec fn up_ok(p: UserProperty) -> bool { blen(p.name@) <= 65535 && blen(p.value@) <= 65535 }
+pub open spec fn ups_ok(o: Option<Vec<UserProperty>>) -> bool { o matches Some(ps) ==> forall|i: int| 0 <= i < ps@.len() ==> up_ok(#[trigger] ps@[i]) }
+pub open spec fn opt_str_ok(o: Option<String>) -> bool { o matches Some(s) ==> blen(s@) <= 65535 }
+pub open spec fn opt_bin_ok(o: Option<Vec<u8>>) -> bool { o matches Some(b) ==> b@.len() <= 65535 }
+pub open spec fn user_props_len(ps: Seq<UserProperty>, n: nat) -> nat
+    decreases n
+{
+    if n == 0 { 0 } else { user_props_len(ps, (n - 1) as nat) + 5 + blen(ps[n - 1].name@) + blen(ps[n - 1].value@) }
+}
+pub open spec fn opt_user_props_len(o: Option<Vec<UserProperty>>) -> nat { match o { Some(ps) => user_props_len(ps@, ps@.len()), None => 0 } }
+pub open spec fn opt_strprop_len(o: Option<String>) -> nat { match o { Some(s) => 3 + blen(s@), None => 0 } }
+pub open spec fn opt_binprop_len(o: Option<Vec<u8>>) -> nat { match o { Some(b) => 3 + b@.len(), None => 0 } }
+pub open spec fn subids_len(v: Seq<u32>, n: nat) -> nat decreases n { if n == 0 { 0 } else { subids_len(v, (n - 1) as nat) + 1 + vli_len(v[n - 1] as nat) } }
+pub open spec fn publish_props_len(p: PublishPacket, res: OutboundAliasResolution) -> nat {
+    opt_user_props_len(p.user_properties)
+        + (if p.payload_format is Some { 2nat } else { 0 })
+        + (if p.message_expiry_interval_seconds is Some { 5nat } else { 0 })
+        + (if res.alias is Some { 3nat } else { 0 })
+        + opt_strprop_len(p.content_type) + opt_strprop_len(p.response_topic) + opt_binprop_len(p.correlation_data)
+        + (match p.subscription_identifiers { Some(v) => subids_len(v@, v@.len()), None => 0 })
+}
+pub open spec fn publish_remaining_len(p: PublishPacket, res: OutboundAliasResolution) -> nat {
+    2 + (if res.skip_topic { 0 } else { blen(p.topic@) }) + (if p.qos != QualityOfService::AtMostOnce { 2nat } else { 0 })
+        + vli_len(publish_props_len(p, res)) + publish_props_len(p, res)
+        + (match p.payload { Some(b) => b@.len(), None => 0 })
+}
+pub open spec fn publish5_sendable(p: PublishPacket, res: OutboundAliasResolution) -> bool {
+    &&& blen(p.topic@) <= 65535 && ups_ok(p.user_properties) && opt_bin_ok(p.correlation_data) && opt_str_ok(p.content_type) && opt_str_ok(p.response_topic)
+    &&& (p.user_properties matches Some(ps) ==> count_ok(ps@.len()))
+    &&& p.subscription_identifiers is None
+    &&& (p.payload matches Some(b) ==> b@.len() <= 9223372036854775807)
+    &&& publish_remaining_len(p, res) <= 268435455
+}
+// proved in the validate unit (same contract); a signature-only stub here
+//@fn gneiss-mqtt/src/mqtt/publish.rs compute_publish_packet_length_properties5 stub
+    requires
+        blen(packet.topic@) <= 65535, ups_ok(packet.user_properties), opt_bin_ok(packet.correlation_data), opt_str_ok(packet.content_type), opt_str_ok(packet.response_topic),
+        packet.user_properties matches Some(ps) ==> count_ok(ps@.len()),
+        packet.subscription_identifiers is None,
+        packet.payload matches Some(b) ==> b@.len() <= 9223372036854775807,
+    ensures
+        r matches Ok((rem, props)) ==> rem == publish_remaining_len(*packet, *alias_resolution) && props == publish_props_len(*packet, *alias_resolution) && props <= 268435455 && rem <= 268435455,
+        publish_remaining_len(*packet, *alias_resolution) <= 268435455 ==> r is Ok,
+//@end
+
+// ---- the wire image (OASIS 5.0 section 3.3). The standard leaves the order of properties free; this is the order the client uses.
+pub open spec fn pfi_num(f: PayloadFormatIndicator) -> u8 { match f { PayloadFormatIndicator::Bytes => 0u8, PayloadFormatIndicator::Utf8 => 1u8 } }
+pub open spec fn opt_str_prop_bytes(key: u8, o: Option<String>) -> Seq<u8> {
+    match o { Some(t) => seq![key] + be16_bytes(blen(t@) as u16) + str_bytes(t@), None => Seq::<u8>::empty() }
+}
+pub open spec fn opt_bin_prop_bytes(key: u8, o: Option<Vec<u8>>) -> Seq<u8> {
+    match o { Some(t) => seq![key] + be16_bytes(t@.len() as u16) + t@, None => Seq::<u8>::empty() }
+}
+pub open spec fn up_bytes(u: UserProperty) -> Seq<u8> {
+    seq![38u8] + be16_bytes(blen(u.name@) as u16) + str_bytes(u.name@) + be16_bytes(blen(u.value@) as u16) + str_bytes(u.value@)
+}
+pub open spec fn ups_bytes(v: Seq<UserProperty>, n: nat) -> Seq<u8> decreases n {
+    if n == 0 { Seq::<u8>::empty() } else { ups_bytes(v, (n - 1) as nat) + up_bytes(v[n - 1]) }
+}
+pub open spec fn ups_piece(o: Option<Vec<UserProperty>>) -> Seq<u8> { if o is Some { ups_bytes(o->Some_0@, o->Some_0@.len()) } else { Seq::<u8>::empty() } }
+pub open spec fn payload_piece(o: Option<Vec<u8>>) -> Seq<u8> { if o is Some { o->Some_0@ } else { Seq::<u8>::empty() } }
+pub open spec fn topic_piece(p: PublishPacket, res: OutboundAliasResolution) -> Seq<u8> { if res.skip_topic { be16_bytes(0u16) } else { be16_bytes(blen(p.topic@) as u16) + str_bytes(p.topic@) } }
+pub open spec fn id_piece(p: PublishPacket) -> Seq<u8> { if p.qos != QualityOfService::AtMostOnce { be16_bytes(p.packet_id) } else { Seq::<u8>::empty() } }
+pub open spec fn pfi_piece(o: Option<PayloadFormatIndicator>) -> Seq<u8> { match o { Some(f) => seq![1u8] + seq![pfi_num(f)], None => Seq::<u8>::empty() } }
+pub open spec fn mei_piece(o: Option<u32>) -> Seq<u8> { match o { Some(v) => seq![2u8] + be32_bytes(v), None => Seq::<u8>::empty() } }
+pub open spec fn alias_piece(o: Option<u16>) -> Seq<u8> { match o { Some(a) => seq![35u8] + be16_bytes(a), None => Seq::<u8>::empty() } }
+pub open spec fn publish5_props_bytes(p: PublishPacket, res: OutboundAliasResolution) -> Seq<u8> {
+    pfi_piece(p.payload_format) + mei_piece(p.message_expiry_interval_seconds) + alias_piece(res.alias)
+    + opt_str_prop_bytes(8u8, p.response_topic) + opt_bin_prop_bytes(9u8, p.correlation_data) + opt_str_prop_bytes(3u8, p.content_type)
+    + ups_piece(p.user_properties)
+}
+pub open spec fn publish5_bytes(p: PublishPacket, res: OutboundAliasResolution) -> Seq<u8> {
+    seq![publish_first_byte(p)] + vli(publish_remaining_len(p, res)) + topic_piece(p, res) + id_piece(p) + vli(publish_props_len(p, res))
+    + publish5_props_bytes(p, res) + payload_piece(p.payload)
+}
+
+pub proof fn lemma_flat_append(a: Seq<EncodingStep>, b: Seq<EncodingStep>, p: MqttPacket)
+    ensures flat(a + b, p) == flat(a, p) + flat(b, p),
+    decreases b.len()
+{
+    if b.len() == 0 {
+        assert(a + b =~= a);
+        assert(flat(a, p) + flat(b, p) =~= flat(a, p));
+    } else {
+        let b0 = b.drop_last();
+        lemma_flat_append(a, b0, p);
+        lemma_flat_push(a + b0, b.last(), p);
+        lemma_flat_push(b0, b.last(), p);
+        assert(b0.push(b.last()) =~= b);
+        assert((a + b0).push(b.last()) =~= a + b);
+        assert(flat(a, p) + flat(b0, p) + step_bytes(b.last(), p) =~= flat(a, p) + (flat(b0, p) + step_bytes(b.last(), p)));
+    }
+}
+pub proof fn lemma_stage(cur: Seq<EncodingStep>, post: Seq<EncodingStep>, pk: MqttPacket, base: Seq<u8>, acc: Seq<u8>, bytes: Seq<u8>)
+    requires flat(cur, pk) == base + acc, cur.len() <= post.len(), post.subrange(0, cur.len() as int) == cur,
+        flat(post.subrange(cur.len() as int, post.len() as int), pk) == bytes,
+    ensures flat(post, pk) == base + (acc + bytes),
+{
+    let news = post.subrange(cur.len() as int, post.len() as int);
+    assert(post =~= cur + news);
+    lemma_flat_append(cur, news, pk);
+    assert(base + acc + bytes =~= base + (acc + bytes));
+}
+pub proof fn lemma_flat_n(s: Seq<EncodingStep>, p: MqttPacket)
+    ensures
+        s.len() == 0 ==> flat(s, p) == Seq::<u8>::empty(),
+        s.len() == 1 ==> flat(s, p) == step_bytes(s[0], p),
+        s.len() == 2 ==> flat(s, p) == step_bytes(s[0], p) + step_bytes(s[1], p),
+        s.len() == 3 ==> flat(s, p) == step_bytes(s[0], p) + step_bytes(s[1], p) + step_bytes(s[2], p),
+        s.len() == 5 ==> flat(s, p) == step_bytes(s[0], p) + step_bytes(s[1], p) + step_bytes(s[2], p) + step_bytes(s[3], p) + step_bytes(s[4], p),
+{
+    let e = Seq::<EncodingStep>::empty();
+    assert(flat(e, p) =~= Seq::<u8>::empty());
+    if s.len() == 0 { assert(s =~= e); }
+    if s.len() >= 1 && s.len() <= 5 {
+        lemma_flat_push(e, s[0], p); assert(flat(e.push(s[0]), p) =~= step_bytes(s[0], p));
+        if s.len() == 1 { assert(s =~= e.push(s[0])); }
+        if s.len() >= 2 { lemma_flat_push(e.push(s[0]), s[1], p); if s.len() == 2 { assert(s =~= e.push(s[0]).push(s[1])); } }
+        if s.len() >= 3 { lemma_flat_push(e.push(s[0]).push(s[1]), s[2], p); if s.len() == 3 { assert(s =~= e.push(s[0]).push(s[1]).push(s[2])); } }
+        if s.len() >= 4 { lemma_flat_push(e.push(s[0]).push(s[1]).push(s[2]), s[3], p); }
+        if s.len() == 5 { lemma_flat_push(e.push(s[0]).push(s[1]).push(s[2]).push(s[3]), s[4], p); assert(s =~= e.push(s[0]).push(s[1]).push(s[2]).push(s[3]).push(s[4])); }
+    }
+}
+
+// ---- proof library for the long step writers: the body of the real function only ever sees the two opaque atoms pub_inv / whole_is,
+// one lemma call per push_back (keeps the solver's context free of quantifiers and sequence-extensionality work)
+#[verifier::opaque]
+pub open spec fn pub_inv(s0: Seq<EncodingStep>, cur: Seq<EncodingStep>, acc: Seq<u8>, p: PublishPacket) -> bool {
+    &&& s0.len() <= cur.len()
+    &&& forall|i: int| 0 <= i < s0.len() ==> cur[i] == s0[i]
+    &&& forall|i: int| s0.len() <= i < cur.len() ==> step_off(#[trigger] cur[i]) == 0
+    &&& forall|pk: MqttPacket| is_publish_of(pk, p) ==> #[trigger] flat(cur, pk) == flat(s0, pk) + acc
+}
+#[verifier::opaque]
+pub open spec fn whole_is(x: EncodingStep, bytes: Seq<u8>, p: PublishPacket) -> bool {
+    forall|pk: MqttPacket| is_publish_of(pk, p) ==> #[trigger] step_whole(x, pk) == bytes
+}
+pub open spec fn int_bytes(x: EncodingStep) -> Seq<u8> {
+    match x {
+        EncodingStep::Uint8(v) => seq![v],
+        EncodingStep::Uint16(v) => be16_bytes(v),
+        EncodingStep::Uint32(v) => be32_bytes(v),
+        EncodingStep::Vli(v) => vli(v as nat),
+        _ => Seq::<u8>::empty(),
+    }
+}
+pub open spec fn is_int_step(x: EncodingStep) -> bool { x is Uint8 || x is Uint16 || x is Uint32 || x is Vli }
+pub proof fn lemma_whole_int(x: EncodingStep, p: PublishPacket)
+    requires is_int_step(x),
+    ensures whole_is(x, int_bytes(x), p), step_off(x) == 0,
+{ reveal(whole_is); }
+pub proof fn lemma_inv_init(s0: Seq<EncodingStep>, p: PublishPacket)
+    ensures pub_inv(s0, s0, Seq::<u8>::empty(), p),
+{
+    reveal(pub_inv);
+    assert forall|pk: MqttPacket| is_publish_of(pk, p) implies #[trigger] flat(s0, pk) == flat(s0, pk) + Seq::<u8>::empty() by { assert(flat(s0, pk) + Seq::<u8>::empty() =~= flat(s0, pk)); }
+}
+pub proof fn lemma_push1(s0: Seq<EncodingStep>, cur: Seq<EncodingStep>, x: EncodingStep, acc: Seq<u8>, b: Seq<u8>, p: PublishPacket)
+    requires pub_inv(s0, cur, acc, p), whole_is(x, b, p), step_off(x) == 0,
+    ensures pub_inv(s0, cur.push(x), acc + b, p),
+{
+    reveal(pub_inv); reveal(whole_is);
+    assert forall|pk: MqttPacket| is_publish_of(pk, p) implies #[trigger] flat(cur.push(x), pk) == flat(s0, pk) + (acc + b) by {
+        lemma_flat_push(cur, x, pk);
+        assert(step_whole(x, pk) == b);
+        assert(step_bytes(x, pk) =~= b);
+        assert(flat(s0, pk) + acc + b =~= flat(s0, pk) + (acc + b));
+    }
+}
+pub proof fn lemma_inv_bytes(s0: Seq<EncodingStep>, cur: Seq<EncodingStep>, acc1: Seq<u8>, acc2: Seq<u8>, p: PublishPacket)
+    requires pub_inv(s0, cur, acc1, p), acc1 =~= acc2,
+    ensures pub_inv(s0, cur, acc2, p),
+{ }
+pub proof fn lemma_inv_final(s0: Seq<EncodingStep>, cur: Seq<EncodingStep>, acc: Seq<u8>, p: PublishPacket)
+    requires pub_inv(s0, cur, acc, p),
+    ensures
+        forall|pk: MqttPacket| is_publish_of(pk, p) ==> #[trigger] flat(cur, pk) == flat(s0, pk) + acc,
+        forall|pk: MqttPacket| is_publish_of(pk, p) && steps_wf(s0, pk) ==> #[trigger] steps_wf(cur, pk),
+{
+    reveal(pub_inv);
+    assert forall|pk: MqttPacket| is_publish_of(pk, p) && steps_wf(s0, pk) implies #[trigger] steps_wf(cur, pk) by {
+        assert forall|i: int| 0 <= i < cur.len() implies step_wf(#[trigger] cur[i], pk) by { if i < s0.len() { assert(cur[i] == s0[i]); assert(step_wf(s0[i], pk)); } }
+    }
+}
+
+pub proof fn lemma_regroup0(s0: Seq<EncodingStep>, cur: Seq<EncodingStep>, pre: Seq<u8>, p: PublishPacket)
+    requires pub_inv(s0, cur, pre, p),
+    ensures pub_inv(s0, cur, pre + Seq::<u8>::empty(), p),
+{ assert(pre + Seq::<u8>::empty() =~= pre); }
+pub proof fn lemma_regroup2(s0: Seq<EncodingStep>, cur: Seq<EncodingStep>, pre: Seq<u8>, b0: Seq<u8>, b1: Seq<u8>, p: PublishPacket)
+    requires pub_inv(s0, cur, pre + b0 + b1, p),
+    ensures pub_inv(s0, cur, pre + (b0 + b1), p),
+{ assert(pre + b0 + b1 =~= pre + (b0 + b1)); }
+pub proof fn lemma_regroup3(s0: Seq<EncodingStep>, cur: Seq<EncodingStep>, pre: Seq<u8>, b0: Seq<u8>, b1: Seq<u8>, b2: Seq<u8>, p: PublishPacket)
+    requires pub_inv(s0, cur, pre + b0 + b1 + b2, p),
+    ensures pub_inv(s0, cur, pre + (b0 + b1 + b2), p),
+{ assert(pre + b0 + b1 + b2 =~= pre + (b0 + b1 + b2)); }
+pub proof fn lemma_regroup_up(s0: Seq<EncodingStep>, cur: Seq<EncodingStep>, pre: Seq<u8>, props: Seq<UserProperty>, n: nat, p: PublishPacket)
+    requires n < props.len(),
+        pub_inv(s0, cur, pre + ups_bytes(props, n) + seq![38u8] + be16_bytes(blen(props[n as int].name@) as u16) + str_bytes(props[n as int].name@)
+            + be16_bytes(blen(props[n as int].value@) as u16) + str_bytes(props[n as int].value@), p),
+    ensures pub_inv(s0, cur, pre + ups_bytes(props, n + 1), p),
+{
+    let u = props[n as int];
+    assert(pre + ups_bytes(props, n) + seq![38u8] + be16_bytes(blen(u.name@) as u16) + str_bytes(u.name@) + be16_bytes(blen(u.value@) as u16) + str_bytes(u.value@)
+        =~= pre + (ups_bytes(props, n) + up_bytes(u)));
+}
+pub proof fn lemma_assoc_publish5(f: Seq<u8>, v1: Seq<u8>, top: Seq<u8>, idp: Seq<u8>, v2: Seq<u8>, p1: Seq<u8>, p2: Seq<u8>, p3: Seq<u8>, p4: Seq<u8>, p5: Seq<u8>, p6: Seq<u8>, p7: Seq<u8>, pay: Seq<u8>)
+    ensures Seq::<u8>::empty() + f + v1 + top + idp + v2 + p1 + p2 + p3 + p4 + p5 + p6 + p7 + pay == f + v1 + top + idp + v2 + (p1 + p2 + p3 + p4 + p5 + p6 + p7) + pay,
+{
+    assert(Seq::<u8>::empty() + f + v1 + top + idp + v2 + p1 + p2 + p3 + p4 + p5 + p6 + p7 + pay =~= f + v1 + top + idp + v2 + (p1 + p2 + p3 + p4 + p5 + p6 + p7) + pay);
+}
+
+//@fn gneiss-mqtt/src/mqtt/publish.rs write_publish_encoding_steps5 props=C02,C17 desugar fnptr_opaque expand=gneiss-mqtt/src/encode.rs:encode_user_properties+gneiss-mqtt/src/encode.rs:encode_user_property
+//@@attr #[verifier::rlimit(100)]
+//@@attr #[verifier::spinoff_prover]
+    requires
+        publish5_sendable(*packet, context.outbound_alias_resolution),          // send-time validation (C16, validate unit)
+    ensures
+        r is Ok,
+        forall|pk: MqttPacket| is_publish_of(pk, *packet) && steps_wf(old(steps)@, pk) ==> #[trigger] steps_wf(final(steps)@, pk),
+        forall|pk: MqttPacket| is_publish_of(pk, *packet) ==> #[trigger] flat(final(steps)@, pk) == flat(old(steps)@, pk) + publish5_bytes(*packet, context.outbound_alias_resolution),
+//@@at bodystart
+    let ghost s0 = steps@;
+    let ghost mut cur = steps@;
+    let ghost mut acc = Seq::<u8>::empty();
+    let ghost mut pre4 = Seq::<u8>::empty();
+    let ghost mut pre15 = Seq::<u8>::empty();
+    let ghost mut pre16 = Seq::<u8>::empty();
+    let ghost res = context.outbound_alias_resolution;
+    proof { lemma_inv_init(s0, *packet); }
+//@@at after "encode_integral_expression!(steps, Uint8, compute_publish_fixed_header_first_byte(packet));"
+    proof {
+        { let x = EncodingStep::Uint8(publish_first_byte(*packet)); lemma_whole_int(x, *packet); lemma_push1(s0, cur, x, acc, int_bytes(x), *packet); cur = cur.push(x); acc = acc + int_bytes(x); }
+        assert(steps@ == cur);
+    }
+//@@at after "encode_integral_expression!(steps, Vli, total_remaining_length);"
+    proof {
+        { let x = EncodingStep::Vli(total_remaining_length); lemma_whole_int(x, *packet); lemma_push1(s0, cur, x, acc, int_bytes(x), *packet); cur = cur.push(x); acc = acc + int_bytes(x); }
+        assert(steps@ == cur);
+    }
+//@@at after "encode_integral_expression!(steps, Uint16, 0);"
+        proof {
+            let pre = acc;
+            { let x = EncodingStep::Uint16(0u16); lemma_whole_int(x, *packet); lemma_push1(s0, cur, x, acc, int_bytes(x), *packet); cur = cur.push(x); acc = acc + int_bytes(x); }
+            assert(steps@ == cur);
+            acc = pre + topic_piece(*packet, res);
+        }
+//@@at after "encode_length_prefixed_string!(steps, get_publish_packet_topic, packet.topic);"
+        proof {
+            let pre = acc;
+            { let x = EncodingStep::Uint16(blen(packet.topic@) as u16); lemma_whole_int(x, *packet); lemma_push1(s0, cur, x, acc, int_bytes(x), *packet); cur = cur.push(x); acc = acc + int_bytes(x); }
+            { let y = steps@[steps@.len() - 1]; assert(whole_is(y, str_bytes(packet.topic@), *packet)) by { reveal(whole_is); assert forall|pk: MqttPacket| is_publish_of(pk, *packet) implies #[trigger] step_whole(y, pk) == str_bytes(packet.topic@) by { assert(get_publish_packet_topic.requires((&pk,))); } } assert(step_off(y) == 0); lemma_push1(s0, cur, y, acc, str_bytes(packet.topic@), *packet); cur = cur.push(y); acc = acc + str_bytes(packet.topic@); }
+            assert(steps@ == cur);
+            lemma_regroup2(s0, cur, pre, be16_bytes(blen(packet.topic@) as u16), str_bytes(packet.topic@), *packet);
+            acc = pre + topic_piece(*packet, res);
+        }
+//@@at before "if packet.qos != QualityOfService::AtMostOnce {"
+    proof {
+        pre4 = acc;
+    }
+//@@at after "encode_integral_expression!(steps, Uint16, packet.packet_id);"
+        proof {
+            { let x = EncodingStep::Uint16(packet.packet_id); lemma_whole_int(x, *packet); lemma_push1(s0, cur, x, acc, int_bytes(x), *packet); cur = cur.push(x); acc = acc + int_bytes(x); }
+            assert(steps@ == cur);
+        }
+//@@at before "encode_integral_expression!(steps, Vli, publish_property_length);"
+    proof {
+        if packet.qos == QualityOfService::AtMostOnce { lemma_regroup0(s0, cur, pre4, *packet); }
+        acc = pre4 + id_piece(*packet);
+    }
+//@@at after "encode_integral_expression!(steps, Vli, publish_property_length);"
+    proof {
+        { let x = EncodingStep::Vli(publish_property_length); lemma_whole_int(x, *packet); lemma_push1(s0, cur, x, acc, int_bytes(x), *packet); cur = cur.push(x); acc = acc + int_bytes(x); }
+        assert(steps@ == cur);
+    }
+//@@at after "encode_optional_enum_property!(steps, Uint8, PROPERTY_KEY_PAYLOAD_FORMAT_INDICATOR, u8, packet.payload_format);"
+    proof {
+        let pre = acc;
+        if packet.payload_format is Some {
+            let f = packet.payload_format->Some_0; assert(f as u8 == pfi_num(f));
+            { let x = EncodingStep::Uint8(1u8); lemma_whole_int(x, *packet); lemma_push1(s0, cur, x, acc, int_bytes(x), *packet); cur = cur.push(x); acc = acc + int_bytes(x); }
+            { let x = EncodingStep::Uint8(pfi_num(f)); lemma_whole_int(x, *packet); lemma_push1(s0, cur, x, acc, int_bytes(x), *packet); cur = cur.push(x); acc = acc + int_bytes(x); }
+            lemma_regroup2(s0, cur, pre, seq![1u8], seq![pfi_num(f)], *packet);
+        } else { lemma_regroup0(s0, cur, pre, *packet); }
+        assert(steps@ == cur);
+        acc = pre + pfi_piece(packet.payload_format);
+    }
+//@@at after "encode_optional_property!(steps, Uint32, PROPERTY_KEY_MESSAGE_EXPIRY_INTERVAL, packet.message_expiry_interval_seconds);"
+    proof {
+        let pre = acc;
+        if packet.message_expiry_interval_seconds is Some {
+            { let x = EncodingStep::Uint8(2u8); lemma_whole_int(x, *packet); lemma_push1(s0, cur, x, acc, int_bytes(x), *packet); cur = cur.push(x); acc = acc + int_bytes(x); }
+            { let x = EncodingStep::Uint32(packet.message_expiry_interval_seconds->Some_0); lemma_whole_int(x, *packet); lemma_push1(s0, cur, x, acc, int_bytes(x), *packet); cur = cur.push(x); acc = acc + int_bytes(x); }
+            lemma_regroup2(s0, cur, pre, seq![2u8], be32_bytes(packet.message_expiry_interval_seconds->Some_0), *packet);
+        } else { lemma_regroup0(s0, cur, pre, *packet); }
+        assert(steps@ == cur);
+        acc = pre + mei_piece(packet.message_expiry_interval_seconds);
+    }
+//@@at after "encode_optional_property!(steps, Uint16, PROPERTY_KEY_TOPIC_ALIAS, resolution.alias);"
+    proof {
+        let pre = acc;
+        if res.alias is Some {
+            { let x = EncodingStep::Uint8(35u8); lemma_whole_int(x, *packet); lemma_push1(s0, cur, x, acc, int_bytes(x), *packet); cur = cur.push(x); acc = acc + int_bytes(x); }
+            { let x = EncodingStep::Uint16(res.alias->Some_0); lemma_whole_int(x, *packet); lemma_push1(s0, cur, x, acc, int_bytes(x), *packet); cur = cur.push(x); acc = acc + int_bytes(x); }
+            lemma_regroup2(s0, cur, pre, seq![35u8], be16_bytes(res.alias->Some_0), *packet);
+        } else { lemma_regroup0(s0, cur, pre, *packet); }
+        assert(steps@ == cur);
+        acc = pre + alias_piece(res.alias);
+    }
+//@@at after "encode_optional_string_property!(steps, get_publish_packet_response_topic, PROPERTY_KEY_RESPONSE_TOPIC, packet.response_topic);"
+    proof {
+        let pre = acc;
+        if packet.response_topic is Some {
+            { let x = EncodingStep::Uint8(8u8); lemma_whole_int(x, *packet); lemma_push1(s0, cur, x, acc, int_bytes(x), *packet); cur = cur.push(x); acc = acc + int_bytes(x); }
+            { let x = EncodingStep::Uint16(blen(packet.response_topic->Some_0@) as u16); lemma_whole_int(x, *packet); lemma_push1(s0, cur, x, acc, int_bytes(x), *packet); cur = cur.push(x); acc = acc + int_bytes(x); }
+            { let y = steps@[steps@.len() - 1]; assert(whole_is(y, str_bytes(packet.response_topic->Some_0@), *packet)) by { reveal(whole_is); assert forall|pk: MqttPacket| is_publish_of(pk, *packet) implies #[trigger] step_whole(y, pk) == str_bytes(packet.response_topic->Some_0@) by { assert(get_publish_packet_response_topic.requires((&pk,))); } } assert(step_off(y) == 0); lemma_push1(s0, cur, y, acc, str_bytes(packet.response_topic->Some_0@), *packet); cur = cur.push(y); acc = acc + str_bytes(packet.response_topic->Some_0@); }
+            lemma_regroup3(s0, cur, pre, seq![8u8], be16_bytes(blen(packet.response_topic->Some_0@) as u16), str_bytes(packet.response_topic->Some_0@), *packet);
+        } else { lemma_regroup0(s0, cur, pre, *packet); }
+        assert(steps@ == cur);
+        acc = pre + opt_str_prop_bytes(8u8, packet.response_topic);
+    }
+//@@at after "encode_optional_bytes_property!(steps, get_publish_packet_correlation_data, PROPERTY_KEY_CORRELATION_DATA, packet.correlation_data);"
+    proof {
+        let pre = acc;
+        if packet.correlation_data is Some {
+            { let x = EncodingStep::Uint8(9u8); lemma_whole_int(x, *packet); lemma_push1(s0, cur, x, acc, int_bytes(x), *packet); cur = cur.push(x); acc = acc + int_bytes(x); }
+            { let x = EncodingStep::Uint16(packet.correlation_data->Some_0@.len() as u16); lemma_whole_int(x, *packet); lemma_push1(s0, cur, x, acc, int_bytes(x), *packet); cur = cur.push(x); acc = acc + int_bytes(x); }
+            { let y = steps@[steps@.len() - 1]; assert(whole_is(y, packet.correlation_data->Some_0@, *packet)) by { reveal(whole_is); assert forall|pk: MqttPacket| is_publish_of(pk, *packet) implies #[trigger] step_whole(y, pk) == packet.correlation_data->Some_0@ by { assert(get_publish_packet_correlation_data.requires((&pk,))); } } assert(step_off(y) == 0); lemma_push1(s0, cur, y, acc, packet.correlation_data->Some_0@, *packet); cur = cur.push(y); acc = acc + packet.correlation_data->Some_0@; }
+            lemma_regroup3(s0, cur, pre, seq![9u8], be16_bytes(packet.correlation_data->Some_0@.len() as u16), packet.correlation_data->Some_0@, *packet);
+        } else { lemma_regroup0(s0, cur, pre, *packet); }
+        assert(steps@ == cur);
+        acc = pre + opt_bin_prop_bytes(9u8, packet.correlation_data);
+    }
+//@@loop 0
+            invariant false,        // unreachable: client publishes carry no subscription identifiers (precondition)
+//@@at after "encode_optional_string_property!(steps, get_publish_packet_content_type, PROPERTY_KEY_CONTENT_TYPE, &packet.content_type);"
+    proof {
+        let pre = acc;
+        if packet.content_type is Some {
+            { let x = EncodingStep::Uint8(3u8); lemma_whole_int(x, *packet); lemma_push1(s0, cur, x, acc, int_bytes(x), *packet); cur = cur.push(x); acc = acc + int_bytes(x); }
+            { let x = EncodingStep::Uint16(blen(packet.content_type->Some_0@) as u16); lemma_whole_int(x, *packet); lemma_push1(s0, cur, x, acc, int_bytes(x), *packet); cur = cur.push(x); acc = acc + int_bytes(x); }
+            { let y = steps@[steps@.len() - 1]; assert(whole_is(y, str_bytes(packet.content_type->Some_0@), *packet)) by { reveal(whole_is); assert forall|pk: MqttPacket| is_publish_of(pk, *packet) implies #[trigger] step_whole(y, pk) == str_bytes(packet.content_type->Some_0@) by { assert(get_publish_packet_content_type.requires((&pk,))); } } assert(step_off(y) == 0); lemma_push1(s0, cur, y, acc, str_bytes(packet.content_type->Some_0@), *packet); cur = cur.push(y); acc = acc + str_bytes(packet.content_type->Some_0@); }
+            lemma_regroup3(s0, cur, pre, seq![3u8], be16_bytes(blen(packet.content_type->Some_0@) as u16), str_bytes(packet.content_type->Some_0@), *packet);
+        } else { lemma_regroup0(s0, cur, pre, *packet); }
+        assert(steps@ == cur);
+        acc = pre + opt_str_prop_bytes(3u8, packet.content_type);
+    }
+//@@at before "if let Some(properties) = &packet.user_properties {"
+    proof {
+        pre15 = acc;
+    }
+//@@at before "let mut verif_enum0: usize = 0;"
+            proof {
+                lemma_regroup0(s0, cur, pre15, *packet);
+            }
+//@@loop 1 iter=it
+            invariant
+                packet.user_properties is Some, properties@ == packet.user_properties->Some_0@, it.seq().len() == properties@.len(), count_ok(properties@.len()),
+                ups_ok(packet.user_properties),
+                verif_enum0 == it.index@,
+                cur == steps@,
+                pub_inv(s0, steps@, pre15 + ups_bytes(properties@, it.index@ as nat), *packet),
+                it.index@ == it.seq().len() ==> pub_inv(s0, steps@, pre15 + ups_piece(packet.user_properties), *packet),
+//@@at before "verif_enum0 += 1;"
+                proof { assert(it.index@ < it.seq().len()); }
+//@@bodyend_of_loop 1
+                proof {
+                    let n = it.index@;
+                    let u = properties@[n];
+                    assert(*user_property == u);
+                    assert(up_ok(u));
+                    acc = pre15 + ups_bytes(properties@, n as nat);
+                    { let x = EncodingStep::Uint8(38u8); lemma_whole_int(x, *packet); lemma_push1(s0, cur, x, acc, int_bytes(x), *packet); cur = cur.push(x); acc = acc + int_bytes(x); }
+                    { let x = EncodingStep::Uint16(blen(u.name@) as u16); lemma_whole_int(x, *packet); lemma_push1(s0, cur, x, acc, int_bytes(x), *packet); cur = cur.push(x); acc = acc + int_bytes(x); }
+                    { let y = steps@[steps@.len() - 3]; assert(whole_is(y, str_bytes(u.name@), *packet)) by { reveal(whole_is); assert forall|pk: MqttPacket| is_publish_of(pk, *packet) implies #[trigger] step_whole(y, pk) == str_bytes(u.name@) by { assert(get_publish_packet_user_property.requires((&pk, i))); } } assert(step_off(y) == 0); lemma_push1(s0, cur, y, acc, str_bytes(u.name@), *packet); cur = cur.push(y); acc = acc + str_bytes(u.name@); }
+                    { let x = EncodingStep::Uint16(blen(u.value@) as u16); lemma_whole_int(x, *packet); lemma_push1(s0, cur, x, acc, int_bytes(x), *packet); cur = cur.push(x); acc = acc + int_bytes(x); }
+                    { let y = steps@[steps@.len() - 1]; assert(whole_is(y, str_bytes(u.value@), *packet)) by { reveal(whole_is); assert forall|pk: MqttPacket| is_publish_of(pk, *packet) implies #[trigger] step_whole(y, pk) == str_bytes(u.value@) by { assert(get_publish_packet_user_property.requires((&pk, i))); } } assert(step_off(y) == 0); lemma_push1(s0, cur, y, acc, str_bytes(u.value@), *packet); cur = cur.push(y); acc = acc + str_bytes(u.value@); }
+                    assert(steps@ == cur);
+                    lemma_regroup_up(s0, cur, pre15, properties@, n as nat, *packet);
+                }
+//@@at before "if packet.payload.is_some() {"
+    proof {
+        if packet.user_properties is None { lemma_regroup0(s0, cur, pre15, *packet); }
+        acc = pre15 + ups_piece(packet.user_properties); pre16 = acc;
+    }
+//@@at after "encode_raw_bytes!(steps, get_publish_packet_payload);"
+        proof {
+            { let y = steps@[steps@.len() - 1]; assert(whole_is(y, packet.payload->Some_0@, *packet)) by { reveal(whole_is); assert forall|pk: MqttPacket| is_publish_of(pk, *packet) implies #[trigger] step_whole(y, pk) == packet.payload->Some_0@ by { assert(get_publish_packet_payload.requires((&pk,))); } } assert(step_off(y) == 0); lemma_push1(s0, cur, y, acc, packet.payload->Some_0@, *packet); cur = cur.push(y); acc = acc + packet.payload->Some_0@; }
+            assert(steps@ == cur);
+        }
+//@@at before "Ok(())"
+    proof {
+        if packet.payload is None { lemma_regroup0(s0, cur, pre16, *packet); }
+        acc = pre16 + payload_piece(packet.payload);
+        lemma_inv_final(s0, cur, acc, *packet);
+        lemma_assoc_publish5(seq![publish_first_byte(*packet)], vli(publish_remaining_len(*packet, res)), topic_piece(*packet, res), id_piece(*packet), vli(publish_props_len(*packet, res)), pfi_piece(packet.payload_format), mei_piece(packet.message_expiry_interval_seconds), alias_piece(res.alias), opt_str_prop_bytes(8u8, packet.response_topic), opt_bin_prop_bytes(9u8, packet.correlation_data), opt_str_prop_bytes(3u8, packet.content_type), ups_piece(packet.user_properties), payload_piece(packet.payload));
+        assert(acc == publish5_bytes(*packet, res));
+    }
+//@end
+
 } // verus!
 fn main() {}
